@@ -373,6 +373,9 @@ func TestC11_Replay(t *testing.T) {
 			}
 			rerr = out.err()
 			got = " observed-key=" + k11FirstKey(&out)
+			if os.Getenv("VERIF_K11_TRACE") != "" {
+				fmt.Printf("---- history of %s\n%s\n----\n", f, out.history)
+			}
 		}
 		fmt.Printf("VERIF-KF key=%s reproduced=%v file=%s%s %v\n", key, rerr != nil, f, got, rerr)
 	}
